@@ -50,6 +50,7 @@ class ValueGen:
         self.restart_at = cfg.get("restart_at", [])
         self.dyn_cats = []  # [(category, qt)] requested by the registrar client during the run
         self.swept = False
+        self.swept_ro = False
         self.dyn_units = cfg.get("dyn_units", [])  # units a plugin registers at some point of the run
         self.reg_forms = cfg.get("reg_forms")
         self.legacy = W.legacy_spellings(info) if cfg["world"] == "W-POSC" else []
@@ -156,6 +157,16 @@ class ValueGen:
         for p in probes:
             p["c"] = "inspector"
         return probes
+
+    def _in_limited_category(self, sim, op):
+        t = op.get("t")
+        if not (isinstance(t, dict) and "ref" in t) or not self.limited:
+            return False
+        try:
+            st, v = sim.pool[t["ref"]]
+            return st == "ok" and v.GetCategory() in [c for c, _q in self.limited]
+        except Exception:
+            return False
 
     def peer_units_live(self):
         db = _db_now()
@@ -315,6 +326,31 @@ class ValueGen:
                 continue
             # F7: turn a read-only workload op into an interrupted one
             if (
+                not op.get("f")
+                and not self.swept_ro
+                and self.cfg.get("val_sweep")
+                and op["k"] in ("val.IsValid", "val.CheckValidity")
+                and self._in_limited_category(sim, op)
+            ):
+                # the same sweep, aimed at the hand-written min/max scan of a limited category
+                self.swept_ro = True
+                op["sweep"] = "retry"
+                op["probes"] = [{k: v for k, v in op.items() if k not in ("sweep", "i", "x")}]
+            elif (
+                not op.get("f")
+                and not self.swept_ro
+                and self.cfg.get("ro_sweep_step") is not None
+                and self.n >= self.cfg["ro_sweep_step"]
+                and op["k"].startswith(("val.", "cv.", "ar.", "fmt.", "lk.", "cmp.", "fixed.", "mk."))
+                and not op["k"].startswith("lk.q.SetUnknownCaption")
+            ):
+                # interrupt sweep over a read-only call: at every line position the call is cut short
+                # and issued again in a forked grandchild; the answer must be the undisturbed one
+                self.swept_ro = True
+                op["sweep"] = "retry"
+                again = {k: v for k, v in op.items() if k not in ("sweep", "i", "x")}
+                op["probes"] = [again]
+            elif (
                 not op.get("f")
                 and self.cfg.get("intr_rate", 0) > 0
                 and rng.random() < self.cfg["intr_rate"]
